@@ -2,6 +2,9 @@
 
 #include "base/atomic-file.hpp"
 #include "base/utility.hpp"
+#ifdef ICINGA2_VERIF
+#include <atomic>
+#endif /* ICINGA2_VERIF */
 #include "base/convert.hpp"
 #include "base/application.hpp"
 #include "base/defer.hpp"
@@ -310,8 +313,30 @@ void Utility::IncrementTime(double diff)
  *
  * @returns The current time.
  */
+#ifdef ICINGA2_VERIF
+static std::atomic<double> l_VerifTime (-1);
+
+void Utility::VerifSetTime(double time)
+{
+	l_VerifTime.store(time);
+}
+
+double Utility::VerifGetTime()
+{
+	return l_VerifTime.load();
+}
+#endif /* ICINGA2_VERIF */
+
 double Utility::GetTime()
 {
+#ifdef ICINGA2_VERIF
+	{
+		double verifTime = l_VerifTime.load();
+
+		if (verifTime >= 0)
+			return verifTime;
+	}
+#endif /* ICINGA2_VERIF */
 #ifdef I2_DEBUG
 	if (m_DebugTime >= 0) {
 		// (DEBUG / TESTING ONLY) this will return a *STATIC* system time, if the value has been set!
